@@ -95,6 +95,11 @@
 (*                   entry from the run table after the handler returned,  *)
 (*                   OUTSIDE initializerMutex, while other runs read and   *)
 (*                   write the table under it                              *)
+(*   CacheEmptyUnsync  a property caches the empty value of its mapped field *)
+(*                   (value and field type) on first use, unsynchronised;  *)
+(*                   ONE property shared by two struct-mapped objects with *)
+(*                   differently typed fields makes concurrent calls swap  *)
+(*                   the cache: an empty field is taken as set             *)
 (*   NoStepMutex     setupStepData without initializerMutex (step.go 201)  *)
 (*   EnumEarlyReturn enum compatibility returns at the first matching key  *)
 (*                   (enum.go 53-97 before its repair)                     *)
@@ -115,7 +120,7 @@
 EXTENDS Integers, Sequences, FiniteSets, TLC
 
 CONSTANTS G, MaxCalls, Kinds, Origins,
-          AliasDefaults, LazyUnsync, CollideEither, StripInPlace, StripRestore, DirtyScratch, SharedMarks, SharedInProgress, StaleMemo, SharedError, SortInPlace, ConvertInPlace, HideRestore, EarlyExitWalk, LastKeyDecides, MemoRootUnsync, ReuseInputContainer, ReleaseOutsideLock, NoStepMutex,
+          AliasDefaults, LazyUnsync, CollideEither, StripInPlace, StripRestore, DirtyScratch, SharedMarks, SharedInProgress, StaleMemo, SharedError, SortInPlace, ConvertInPlace, HideRestore, EarlyExitWalk, LastKeyDecides, MemoRootUnsync, ReuseInputContainer, ReleaseOutsideLock, CacheEmptyUnsync, NoStepMutex,
           EnumEarlyReturn, SubOverride
 
 VARIABLES inst,          \* [kind, origin, shared]
@@ -230,6 +235,14 @@ Ops(kind) ==
            {Call("unser", Arg("empty", Empty)), Call("unser", Arg("n1", Flat(1, Absent, Absent, Absent))),
             Call("unser", Arg("s_a1", Flat(Absent, Absent, 1, Absent))), Call("unser", Arg("bad", Empty)),
             Call("ser", Arg("full", Flat(1, Absent, 1, 1)))}
+      [] kind = "patnil" ->
+           \* root{filters: list of pattern}: a value whose list holds a nil pattern is refused by the item, the list
+           \* and the object each add their path segment (SharedError: onto one package-level error value)
+           {Call("valid", Arg("nil_item", Empty)), Call("ser", Arg("nil_item", Empty)), Call("valid", Arg("good", Empty))}
+      [] kind = "emptydef" ->
+           \* objects A (field of type string) and B (field of a defined string type) share ONE property that treats
+           \* the empty value as unset (the string must have at least one character otherwise)
+           {Call(op, Arg(t, Empty)) : op \in {"ser", "valid"}, t \in {"empty_a", "empty_b"}}
       [] kind = "listarg" ->
            \* a list (or map) schema given a container of exactly the Go type its result has, whose ELEMENTS change
            \* under unserialisation (defaults, discriminator, canonical numbers); path n stands for such an element
@@ -324,6 +337,9 @@ PureSet(i, op, arg) ==
               [] arg.tok = "typed_collide" -> {Res(FALSE, Empty, 0)}              \* duplicate key
               [] arg.tok = "single" -> {Res(TRUE, Empty, 1)}
               [] OTHER -> {Res(FALSE, Empty, 0)})
+      [] k = "patnil" ->
+           (IF arg.tok = "good" THEN {Res(TRUE, Empty, 0)} ELSE {Res(FALSE, Empty, 2)})
+      [] k = "emptydef" -> {Res(TRUE, Empty, 0)}
       [] k = "listarg" ->
            (IF arg.tok = "same_type_bad" THEN {Res(FALSE, Empty, 0)} ELSE {Res(TRUE, Empty, 0)})
       [] k = "objreq" ->
@@ -435,6 +451,10 @@ Acc(g) ==
       [] pc[g] = "S3b" -> IF AliasDefaults THEN Wr("cell.s") ELSE NoAcc
       [] pc[g] = "S4"  -> IF AliasDefaults THEN Rd("cell.s") ELSE NoAcc
       [] pc[g] = "S5"  -> IF AliasDefaults /\ ~SPresent(g) THEN Rd("cell.s") ELSE NoAcc
+      [] pc[g] = "X1"  -> Rd("prop.emptyType")
+      [] pc[g] = "X2"  -> Wr("prop.emptyValue")
+      [] pc[g] = "X3"  -> Wr("prop.emptyType")
+      [] pc[g] = "X4"  -> Rd("prop.emptyValue")
       [] pc[g] = "M1"  -> Rd("scope.root")
       [] pc[g] = "M2"  -> Wr("scope.root")
       [] pc[g] = "O0"  -> IF inst.shared THEN Rd("arg") ELSE NoAcc
@@ -487,6 +507,8 @@ Entry(c) ==
       [] K \in UnitKinds /\ c.op = "fmt" -> IF LazyUnsync THEN "F1" ELSE "FL"
       [] K \in ObjKinds /\ c.op = "unser" /\ c.arg.tok # "bad" -> IF LazyUnsync THEN "D1" ELSE "DL"
       [] K = "disabled" /\ c.arg.tok = "uses_disabled" -> "E1"
+      [] K = "patnil" /\ c.arg.tok = "nil_item" -> "E1"
+      [] K = "emptydef" /\ CacheEmptyUnsync -> "X1"
       [] K = "chain" /\ c.arg.tok \in {"scalar", "badscalar"} -> "W1"
       [] K = "compat2" -> "Q1"
       [] K = "objnest" /\ (c.op = "unsermid" \/ c.arg.tok \in LimToks) -> "N3"
@@ -764,6 +786,28 @@ ErrSegment(g, label, to, last) ==
        IN Put(g, SharedError, IF last THEN [L EXCEPT !.res = Res(FALSE, Empty, Cardinality(S))] ELSE L, S)
     /\ Goto(g, to) /\ ScratchFrame
 
+\* isEmptyValue with a cache on the (shared) property: scratch holds the cached value "v.<type>" and the cached
+\* field type "t.<type>"
+MyType(g) == IF cur[g].arg.tok = "empty_a" THEN "string" ELSE "label"
+EmptyRead(g) ==
+    /\ At(g, "X1")
+    /\ Goto(g, IF ("t." \o MyType(g)) \in scratch THEN "X4" ELSE "X2")
+    /\ UNCHANGED <<scratch, loc>> /\ ScratchFrame
+EmptyWriteValue(g) ==
+    /\ At(g, "X2")
+    /\ scratch' = (scratch \ {"v.string", "v.label"}) \cup {"v." \o MyType(g)}
+    /\ Goto(g, "X3") /\ UNCHANGED loc /\ ScratchFrame
+EmptyWriteType(g) ==
+    /\ At(g, "X3")
+    /\ scratch' = (scratch \ {"t.string", "t.label"}) \cup {"t." \o MyType(g)}
+    /\ Goto(g, "X4") /\ UNCHANGED loc /\ ScratchFrame
+\* the field equals the cached empty value only if that was built for this field type: else the empty field counts
+\* as set and its constraint (at least one character) refuses it
+EmptyCompare(g) ==
+    /\ At(g, "X4")
+    /\ SetLoc(g, "res", IF ("v." \o MyType(g)) \in scratch THEN Res(TRUE, Empty, 0) ELSE Res(FALSE, Empty, 0))
+    /\ Goto(g, "ret") /\ UNCHANGED scratch /\ ScratchFrame
+
 \* inlineShorthandTerminates, started at level lvl: is the object at pos already on the walk?
 WalkRead(g) ==
     /\ At(g, "W1")
@@ -933,6 +977,7 @@ Step(g) ==
     \* one-of, struct validation, steps
     \/ OneOfSelect(g) \/ OneOfStrip(g) \/ OneOfMemberDone(g) \/ ValidateStruct(g) \/ DepMap(g) \/ AnyConvert(g) \/ NestPropagate(g) \/ NestMid(g)
     \/ ErrSegment(g, "E1", "E2", FALSE) \/ ErrSegment(g, "E2", "ret", TRUE)
+    \/ EmptyRead(g) \/ EmptyWriteValue(g) \/ EmptyWriteType(g) \/ EmptyCompare(g)
     \/ WalkRead(g) \/ WalkMark(g) \/ WalkClear(g) \/ WalkDone(g)
     \/ CmpBegin(g, "Q1", "pair.root", "Q2", "Q1x") \/ CmpRootUnderWay(g)
     \/ CmpBegin(g, "Q2", "pair.lim", "Q3", "Q4") \/ CmpLeaf(g) \/ CmpEnd(g)
